@@ -254,6 +254,79 @@ def resolve_skips_type_error(ev) -> bool:
     raise TranslationError(f"resolve_name: unrecognised set of skipped exceptions {sorted(set(caught))}")
 
 
+RUNNER_KIND = {"CompiledRunner": "C", "InterpretedRunner": "I", "celpy.CompiledRunner": "C", "celpy.InterpretedRunner": "I"}
+LIMIT_SOURCES = ("src/celpy/__init__.py", "src/celpy/evaluation.py", "src/celpy/celparser.py", "src/celpy/celtypes.py",
+                 "src/celpy/adapter.py", "src/celpy/c7nlib.py")
+
+
+def _is_setrecursionlimit(n) -> bool:
+    return isinstance(n, ast.Call) and _u(n.func) in ("sys.setrecursionlimit", "setrecursionlimit")
+
+
+def _limit_value(call) -> int:
+    if len(call.args) != 1 or call.keywords or not isinstance(call.args[0], ast.Constant) or not isinstance(call.args[0].value, int):
+        raise TranslationError(f"setrecursionlimit: the limit is not an integer literal: `{_u(call)}`")
+    return call.args[0].value
+
+
+def _may_leave(stmt) -> bool:
+    return any(isinstance(n, (ast.Return, ast.Raise)) for n in ast.walk(stmt))
+
+
+def limit_policy(init=None) -> tuple:
+    """When does the library set the process-wide recursion limit?  ("always", n): `Environment.__init__` calls
+    `sys.setrecursionlimit(n)` as a statement of its own body that every successful construction reaches (any position;
+    no return/raise before it); ("onlyKind", k, n): the call is guarded by a test of the runner class; ("never",): no call
+    anywhere in the package.  A call anywhere else (another function, another module, module level) is not understood."""
+    import os
+    from .common import REPO as _REPO  # type: ignore
+    init = init if init is not None else parse("src/celpy/__init__.py")
+    env = find_class(init, "Environment")
+    fn = find_func(env.body, "__init__")
+    inside = [n for n in ast.walk(fn) if _is_setrecursionlimit(n)]
+    total = 0
+    for src in LIMIT_SOURCES:
+        if os.path.exists(os.path.join(str(_REPO), src)):
+            total += len([n for n in ast.walk(parse(src)) if _is_setrecursionlimit(n)])
+    if total != len(inside):
+        raise TranslationError("sys.setrecursionlimit is called outside Environment.__init__")
+    if not inside:
+        return ("never",)
+    if len(inside) != 1:
+        raise TranslationError("Environment.__init__: more than one sys.setrecursionlimit call")
+    n = _limit_value(inside[0])
+    for i, st in enumerate(fn.body):
+        if isinstance(st, ast.Expr) and st.value is inside[0]:
+            if any(_may_leave(x) for x in fn.body[:i]):
+                raise TranslationError("Environment.__init__: a return/raise may precede sys.setrecursionlimit")
+            return ("always", n)
+        if isinstance(st, ast.If) and any(x is inside[0] for x in ast.walk(st)):
+            if any(_may_leave(x) for x in fn.body[:i]):
+                raise TranslationError("Environment.__init__: a return/raise may precede sys.setrecursionlimit")
+            t = st.test
+            in_body = len(st.body) == 1 and isinstance(st.body[0], ast.Expr) and st.body[0].value is inside[0]
+            in_else = len(st.orelse) == 1 and isinstance(st.orelse[0], ast.Expr) and st.orelse[0].value is inside[0]
+            if isinstance(t, ast.Compare) and len(t.ops) == 1 and _u(t.left) in ("self.runner_class", "runner_class") \
+                    and _u(t.comparators[0]) in RUNNER_KIND and (in_body or in_else):
+                k = RUNNER_KIND[_u(t.comparators[0])]
+                positive = isinstance(t.ops[0], (ast.Is, ast.Eq))
+                if not positive and not isinstance(t.ops[0], (ast.IsNot, ast.NotEq)):
+                    raise TranslationError(f"Environment.__init__: unrecognised guard of sys.setrecursionlimit `{_u(t)}`")
+                if positive != in_body:
+                    k = "I" if k == "C" else "C"        # two runner classes: "not C" is "I" (the default runner is I)
+                return ("onlyKind", k, n)
+            raise TranslationError(f"Environment.__init__: unrecognised guard of sys.setrecursionlimit `{_u(t)}`")
+    raise TranslationError("Environment.__init__: sys.setrecursionlimit is not a statement of the constructor's own body")
+
+
+def limit_policy_lean(pol) -> str:
+    if pol[0] == "never":
+        return ".never"
+    if pol[0] == "always":
+        return f".always {pol[1]}"
+    return f".onlyKind .{pol[1]} {pol[2]}"
+
+
 def read_config(parts=("clone", "parser", "ns", "skipTE")) -> dict:
     ev = parse("src/celpy/evaluation.py")
     out = {}
@@ -267,15 +340,20 @@ def read_config(parts=("clone", "parser", "ns", "skipTE")) -> dict:
         out["ns"] = namespace_policy(ev)
     if "skipTE" in parts:
         out["skipTE"] = resolve_skips_type_error(ev)
+    if "limit" in parts:
+        out["limit"] = limit_policy()
     return out
 
 
 def gen_runtime() -> str:
     """C05: object sharing between a program's construction-time activation and its per-call copies; parser cache"""
-    cfg = read_config(("clone", "parser", "skipTE"))
+    cfg = read_config(("clone", "parser", "skipTE", "limit"))
     out = [HEADER.format(src="src/celpy/evaluation.py (Referent.clone, NameContainer.clone, Activation.clone, Evaluator.set_activation, "
-                             "NameContainer.resolve_name), src/celpy/__init__.py (InterpretedRunner.evaluate), src/celpy/celparser.py (CELParser)"),
-           "import Cel.Model.Runtime\nnamespace Cel.Gen.Runtime\nopen Cel.Runtime\n",
+                             "NameContainer.resolve_name), src/celpy/__init__.py (InterpretedRunner.evaluate, Environment.__init__), "
+                             "src/celpy/celparser.py (CELParser)"),
+           "import Cel.Model.Runtime\nimport Cel.Model.RuntimeLimit\nnamespace Cel.Gen.Runtime\nopen Cel.Runtime\n",
+           "/-- when `Environment.__init__` sets the process-wide recursion limit -/",
+           f"def limitPolicy : LimitPolicy := {limit_policy_lean(cfg['limit'])}",
            "/-- what `Referent.clone` does with the nested container -/",
            f"def clonePolicy : ClonePolicy := .{cfg['clone']}",
            "/-- how `CELParser` caches lark parsers -/",
